@@ -79,14 +79,35 @@ def includes_zero(s) -> bool:
 
 
 class SignEnv:
-    """atom_sign(atom) -> sign supplies the leaves (readings, config); facts refine."""
+    """atom_sign(atom) -> sign supplies the leaves (readings, config); facts refine.
+    lower(atom) -> int|None gives integer lower bounds of config symbols (period >= 2)."""
 
-    def __init__(self, atom_sign: Callable[[tuple], str], facts: tuple = ()):
+    def __init__(self, atom_sign: Callable[[tuple], str], facts: tuple = (), lower: Optional[Callable] = None):
         self.atom_sign = atom_sign
         self.facts = tuple(facts)
+        self.lower = lower
 
     def with_fact(self, c) -> "SignEnv":
-        return SignEnv(self.atom_sign, self.facts + (c,))
+        return SignEnv(self.atom_sign, self.facts + (c,), self.lower)
+
+    def _cfg_poly_sign(self, q: Poly) -> str:
+        """sign of a polynomial in lower-bounded config symbols: substitute c := lb + d (d >= 0) and look at the coefficients"""
+        from .poly import Frac as F, subst
+
+        mp = {}
+        for a in q.atoms():
+            lb = self.lower(a) if self.lower else None
+            if lb is None:
+                return ANY
+            mp[a] = F.const(lb) + F.atom(("d",) + a)
+        sh = subst(F(q), mp)
+        coefs = list(sh.n.t.values())
+        const = sh.n.t.get((), 0)
+        if all(c >= 0 for c in coefs):
+            return POS if const > 0 else NONNEG
+        if all(c <= 0 for c in coefs):
+            return NEG if const < 0 else NONPOS
+        return ANY
 
     # ---- facts
     def fact_sign(self, f: Frac) -> Optional[str]:
@@ -95,7 +116,7 @@ class SignEnv:
             if not isinstance(c, tuple):
                 continue
             if c[0] == "and":
-                sub = SignEnv(self.atom_sign, tuple(c[1:])).fact_sign(f)
+                sub = SignEnv(self.atom_sign, tuple(c[1:]), self.lower).fact_sign(f)
                 best = self._meet(best, sub)
                 continue
             if c[0] == "cmp":
@@ -111,7 +132,7 @@ class SignEnv:
         for c in self.facts:
             if not isinstance(c, tuple):
                 continue
-            if c[0] == "and" and SignEnv(self.atom_sign, tuple(c[1:])).fact_nonzero(f):
+            if c[0] == "and" and SignEnv(self.atom_sign, tuple(c[1:]), self.lower).fact_nonzero(f):
                 return True
             if c[0] == "cmp" and c[1] in ("!=", "<"):
                 d = c[2]
@@ -167,9 +188,23 @@ class SignEnv:
         if ax is not None:
             return ax
         total = ZERO
+        # group by the part that is not a lower-bounded config symbol; the config coefficient polynomial is
+        # decided by shift substitution (so `period - 1`, `period^2 - period` are POS for period >= 2)
+        groups: Dict[tuple, Dict] = {}
         for m, c in p.t.items():
-            s = POS if c > 0 else NEG
+            cfg_part, rest = [], []
             for a, e in m:
+                if self.lower is not None and e > 0 and self.lower(a) is not None:
+                    cfg_part.append((a, e))
+                else:
+                    rest.append((a, e))
+            groups.setdefault(tuple(rest), {})[tuple(cfg_part)] = c
+        for rest, coefpoly in groups.items():
+            if len(coefpoly) == 1 and () in coefpoly:
+                s = POS if coefpoly[()] > 0 else NEG
+            else:
+                s = self._cfg_poly_sign(Poly(coefpoly))
+            for a, e in rest:
                 sa = self.atom(a)
                 if e % 2 == 0:
                     sa = s_pow_even(sa)
